@@ -17,7 +17,7 @@ use vfs::{
 };
 use wrappers::{HarnessFS, Shared};
 
-#[derive(rust_embed::RustEmbed, Debug)]
+#[derive(rust_embed::RustEmbed, Debug, Default)]
 #[folder = "fixtures/emb1"]
 struct Emb1;
 
@@ -487,7 +487,7 @@ fn main() {
     let mut file = None;
     let mut sort = true;
     if args.len() > 2 && args[1] == "--async" {
-        asyncrun::main(&args[2], args.iter().any(|a| a == "--pending"));
+        asyncrun::main(&args[2], args.iter().any(|a| a == "--pending"), !args.iter().any(|a| a == "--no-tokio"));
         return;
     }
     if args.len() > 2 && args[1] == "--conc" {
@@ -523,6 +523,8 @@ fn main() {
             }
             ["embfile", ..] => {}
             ["base", "emb"] => cur.bases.push(Some(Box::new(EmbeddedFS::<Emb1>::new()))),
+            // the other public constructor
+            ["base", "embd"] => cur.bases.push(Some(Box::new(<EmbeddedFS<Emb1> as Default>::default()))),
             ["base", "physfix"] => {
                 let d = PathBuf::from(concat!(env!("CARGO_MANIFEST_DIR"), "/fixtures/emb1"));
                 cur.bases.push(Some(Box::new(PhysicalFS::new(&d))));
